@@ -54,6 +54,8 @@ MUT = {
  "c14-rels-check-skipped": ("C14", S, "        error_array = rel_error * abs(data)\n    else:", "        return rel_error * np.asarray(data)\n    else:"),
  "c14-ctor-check-only-when-saved": ("C14", D, "        if error is not None and error < 0:\n            raise ValueError(\"The error must be a positive real number!\")\n        super().__init__(unit, name, save=save)",
                                     "        if error is not None and error < 0 and save:\n            raise ValueError(\"The error must be a positive real number!\")\n        super().__init__(unit, name, save=save)"),
+ "c14-append-bypasses-ctor": ("C14", U, "    if isinstance(value, tuple) and len(value) == 2:\n        return dt.MeasuredValue(*value, **kwargs)\n",
+                              "    if isinstance(value, tuple) and len(value) == 2:\n        m = dt.MeasuredValue(value[0], **kwargs)\n        m._error = float(value[1])\n        return m\n"),
  "c14-custom-no-sign-check": ("C14", U, "        if error < 0:\n            raise ValueError(\"The error must be a positive real number!\")\n        # the strategy", "        # the strategy"),
  "c14-custom-check-after-switch": ("C14", U, "        if error < 0:\n            raise ValueError(\"The error must be a positive real number!\")\n        # the strategy is switched only once the pair is known to be valid: a rejected request\n        # leaves the strategy, and so the reported value and uncertainty, as they were\n        self.__settings[lit.MONTE_CARLO_STRATEGY] = lit.MC_CUSTOM\n",
                                    "        self.__settings[lit.MONTE_CARLO_STRATEGY] = lit.MC_CUSTOM\n        if error < 0:\n            raise ValueError(\"The error must be a positive real number!\")\n"),
